@@ -15,6 +15,7 @@ from .. import rig as R, ref, gen, subm, dump, qcore, env
 from ..orch import h
 
 ID = "C06"
+TECHNIQUE = 'runtime monitoring - per-submission oracle at quiescence: one OK per EVENT, OK=true implies retrievable (dump + REQ), OK=false implies no trace (records, index keys, tags rows, pushes); resubmissions, orderly restart right behind the acknowledgement'
 LEVEL = "exploration"
 RULE = (
     "cases = (backend, seeded sequence of 25-50 EVENT submissions mixing valid events of every kind class, exact "
